@@ -11,6 +11,7 @@ from holopy.scattering.theory import Mie, Multisphere, Tmatrix, MieLens
 from holopy.scattering.theory.dda import DDA
 from holopy.scattering.errors import AutoTheoryFailed, InvalidScatterer
 from holopy.core.errors import DependencyMissing
+from holopy.core.metadata import detector_grid
 
 SI = "holopy.scattering.interface:"
 STUB = [("holopy.scattering.scatterer.spherecluster", "Spheres.overlaps", property(lambda self: []))]
@@ -175,3 +176,57 @@ def multisphere_handoff(c):
                                                                           c.eq(rotated['y'][i], sp * a['x'][i] + cp * a['y'][i]),
                                                                           c.eq(rotated['z'][i], a['z'][i])))
     c.ensures("solver-options-passed", a['rest'][:5] == (th.niter, th.eps, th.qeps1, th.qeps2, th.meth))
+
+
+@contract("C09", "uniform_spheres_in_any_notation", [SI + "_choose_mie_vs_multisphere", SI + "determine_default_theory_for", SI + "calc_field",
+                                                     SI + "calc_holo", SI + "calc_intensity", SI + "interpret_theory", SI + "validate_scatterer"],
+          bounded="a close pair of uniform spheres; index as a number, a complex number, a per-channel dictionary or a prior; radius a number or a prior",
+          patches=STUB, max_paths=80)
+def uniform_spheres_in_any_notation(c):
+    """a cluster of UNIFORM spheres within 30 radii gets the multi-sphere theory however the spheres' values are written - the index a
+    real or complex number, a per-illumination dictionary, or a prior; the radius a number or a prior (the calculation uses the
+    guess) - without a 'coated spheres' warning, and every calculation entry point resolves theory='auto' to that same theory"""
+    from holopy.core.prior import Uniform
+    import holopy.scattering.interface as hsi
+    notation = c.choice("index_and_radius_written_as", ["numbers", "complex index", "per-channel index", "prior index", "prior radius"])
+    r = c.real("r", pos=True, sample=(0.3, 1))
+    d = c.real("separation", pos=True, sample=(2.1, 25))
+    c.requires(c.and_(d > 2 * r, d <= 30 * r))
+
+    def sph(x):
+        n = {"numbers": 1.5, "complex index": 1.5 + 0.1j, "per-channel index": {'red': 1.5, 'green': 1.55},
+             "prior index": Uniform(1.4, 1.6), "prior radius": 1.5}[notation]
+        rad = Uniform(0.5 * r, 2 * r, guess=r) if notation == "prior radius" else r
+        return Sphere(n=n, r=rad, center=[x, 0.0, 5.0])
+    pair = Spheres([sph(0.0), sph(d)], warn=False)
+    seen = []
+
+    class Spy:
+        """stands in for ImageFormation: records which theory the entry point resolved"""
+        def __init__(self, theory):
+            seen.append(theory)
+            raise _Stop()
+
+    class _Stop(Exception):
+        pass
+    saved = hsi.ImageFormation
+    hsi.ImageFormation = Spy
+    det = detector_grid(2, 0.1, extra_dims={'illumination': ['red', 'green']}) if notation == "per-channel index" else detector_grid(2, 0.1)
+    kw = dict(medium_index=1.33, illum_wavelen=({'red': 0.66, 'green': 0.52} if notation == "per-channel index" else 0.66), illum_polarization=(1, 0))
+    try:
+        with deployed():
+            validated = hsi.validate_scatterer(pair)
+            th = c.call(determine_default_theory_for, validated)
+            warned = any(e[0] == 'warn' for e in c.events()) if c.symbolic else False
+            c.ensures("multisphere-for-uniform-spheres", type(th) is Multisphere)
+            c.ensures("no-coated-spheres-warning", not warned)
+            for entry in (hsi.calc_holo, hsi.calc_field, hsi.calc_intensity):
+                before = len(seen)
+                try:
+                    entry(det, pair, theory='auto', **kw)
+                except _Stop:
+                    pass
+                c.ensures("every-entry-point-resolves-auto-to-multisphere", len(seen) == before + 1 and type(seen[-1]) is Multisphere,
+                          detail=entry.__name__)
+    finally:
+        hsi.ImageFormation = saved
